@@ -21,6 +21,20 @@ CLAIMED = {
     },
 }
 
+CLAIMED['C14'] = {
+    'category': 'proof',
+    'text': 'Verus proves on the real text of wbtree/map.rs (cut from /repo on every run) that the listed Node::* and WBTreeMap::* functions '
+            'preserve the representation invariant wf = BST order + exact cached sizes + weight balance at every node (DELTA=3, GAMMA=2) + '
+            'len == node count, and that their result equals the corresponding finite-map operation on the abstract view, for all trees '
+            'and all keys, with termination, overflow- and panic-freedom. Functions outside the proved set (see evidence: '
+            'functions_under_contract vs extraction_drops; iterators are unsafe code) are covered only by the bounded native sweep against '
+            'BTreeMap on clone families, which is reported separately and never counted as proof.',
+    'design_ref': '§5.2, §6 C14',
+    'note': 'Assumes the std specifications listed in trusted_base (Rc::make_mut etc.), structural derived Clone, usize 64-bit. '
+            'Persistence follows from Verus value semantics of Rc<T> + the make_mut specification. Bounded part: see coverage.bounded_parts.',
+    'technique': 'contract-based deductive verification (Verus) of extracted real code; bounded native contract execution for iterators and as replay',
+}
+
 NOT_APPLICABLE = {
     'C01': 'postcondition of the generated close_until loop and rule functions (extern "Rust", runtime iterators, string-templated generator): no function on that path can carry a contract Verus or Kani accepts (DESIGN §6)',
     'C02': 'needs the denotation of generated rule functions and define_*; not expressible as a contract within reach (DESIGN §6)',
@@ -38,7 +52,6 @@ NOT_APPLICABLE = {
     # not yet built (will move to CLAIMED as units land)
     'C04': 'not built yet in this round (unit GEN pending)',
     'C08': 'not built yet in this round (unit PT pending)',
-    'C14': 'not built yet in this round (unit WB pending)',
     'C16': 'not built yet in this round (unit SN pending)',
     'C18': 'not built yet in this round (unit TS pending)',
     'C11': 'not built yet in this round (unit SD pending)',
